@@ -188,6 +188,9 @@ ShortAlphabet == IF Level = 1 THEN {0, 1, 3, 11, 22, 50, 60, 70, 71, 80, 81, 90,
 EvTags == {1, 2, 3, 255, 256}
 EvVal(t) == CASE t = 1 -> I("int32", 127) [] t = 2 -> VString(<<104,105>>) [] t = 3 -> VList(<<VBool(TRUE)>>)
               [] t = 255 -> VMsg(<< <<1, VByte(9)>> >>) [] OTHER -> VUint("uint64", <<0,0,0,1,0,0,0,0>>)
+\* tags no writer uses which every reader asks for as well: they equal a written tag modulo 256 (a one-byte table entry
+\* must not match them) or are the largest tag
+EvAliasTags == {257, 258, 259, 511, 512, 65535}
 \* a message written under schema A = sequence of distinct tags in write order
 Perms(S) == { s \in [1..Cardinality(S) -> S] : \A i, j \in DOMAIN s : i # j => s[i] # s[j] }
 EvMsgs == IF Mode # "evolve" THEN {} ELSE UNION { Perms(S) : S \in SUBSET EvTags }
@@ -195,8 +198,8 @@ EvCaseV(order, R, Val(_)) ==
     LET v == VMsg([i \in DOMAIN order |-> <<order[i], Val(order[i])>>])
         e == Encode(v)
     IN [mode |-> "evolve", enc |-> e, written |-> order, reader |-> SetToSeq(R),
-        reads |-> [i \in 1..Cardinality(R) |->
-                     LET t == SetToSeq(R)[i] IN
+        reads |-> [i \in 1..Cardinality(R \cup EvAliasTags) |->
+                     LET t == SetToSeq(R \cup EvAliasTags)[i] IN
                      [tag |-> t, present |-> HasField(e, t),
                       val |-> IF HasField(e, t) THEN LET fb == LookupRaw(e, t) IN Parse(fb).v ELSE VNone]]]
 EvCase(order, R) == EvCaseV(order, R, EvVal)
